@@ -5,6 +5,7 @@ The same transition system as C02, now with faults (`fate x = die` kills the wor
 keeps its own Receiver while waiting), `false` the repaired code.
 -/
 import GrcovModel.Props.C02
+import GrcovModel.Lemmas.PipelineExit
 namespace Grcov.Props.C07
 open Grcov.Pipeline
 
@@ -86,5 +87,27 @@ theorem C07_report_without_rejected (canon : Grcov.Key → Grcov.Key)
     Grcov.Report.ObsEqOpt (Grcov.AList.get? (Grcov.Report.reportOf canon contents s.merged) k)
       (Grcov.AList.get? (Grcov.Report.reportOf canon contents (items.filter fun x => fate x = .ok)) k) :=
   Grcov.Props.C02.C02_report_without_rejected canon contents hwf fate n hn rx items tr s h hd k
+
+/-- The converse of `C07_dead_worker_nonzero_exit`: if no input kills its worker (inputs may still
+be rejected), every run that reaches an exit status reaches status 0 – for every thread count and
+interleaving. Together: the process ends with a non-zero status iff a worker (or the producer)
+died, and `C07_no_deadlock` + `C07_runs_are_finite` say it always ends. Without this theorem the
+report theorems, which assume `mainPc = done 0`, could be vacuous. -/
+theorem C07_no_death_exit_zero (fate : Item → Fate) (hnd : ∀ x, fate x ≠ .die) (n : Nat)
+    (hn : 1 ≤ n) (rx : Bool) (items : List Item) (tr : List Step) (s : State)
+    (h : Run fate (init n rx items) tr s) (c : Nat) (hd : s.mainPc = .done c) : c = 0 :=
+  no_die_exit0 fate hnd n hn rx items tr s h c hd
+
+/-- … and such a run exists for every input list: from every reachable non-terminal state of the
+repaired code some step is enabled and the measure decreases, so a maximal run ends in a terminal
+state, whose status is then 0. Stated as: a reachable state without enabled step is terminal. -/
+theorem C07_stuck_only_when_terminal (fate : Item → Fate) (n : Nat) (hn : 1 ≤ n)
+    (items : List Item) (tr : List Step) (s : State) (h : Run fate (init n false items) tr s)
+    (hs : ∀ st ∈ allSteps s, enabled s st = false) : terminal s = true := by
+  cases ht : terminal s with
+  | true => rfl
+  | false =>
+    obtain ⟨st, hm, he⟩ := C07_no_deadlock fate n hn items tr s h ht
+    rw [hs st hm] at he; cases he
 
 end Grcov.Props.C07
